@@ -46,6 +46,14 @@ pub fn gen_ev(r: &mut Rng, thorough: bool, cx: &mut Ctx) {
             let mut v = vec![4, r.u16b(), r.u16b(), *d]; v.extend(r.bytes(*n).iter().map(|b| *b as u64)); cx.emit(&v);
         }
     }
+    // data events whose payload begins with (a prefix of) their own packet header: code, transmitter, declared length
+    for n in [6usize, 7, 10, 64, 300].iter() {
+        for cut in [6usize, 4, 2].iter() {
+            let t = r.u16b(); let mut pay: Vec<u64> = vec![0, 4, t >> 8, t & 0xff, (*n as u64) >> 8, (*n as u64) & 0xff]; pay.truncate(*cut);
+            while pay.len() < *n { pay.push(r.below(256)); }
+            let mut v = vec![4, r.u16b(), t, *n as u64]; v.extend(pay); cx.emit(&v);
+        }
+    }
     // data events at the size limits
     let big: &[usize] = if thorough { &[65535, 65534, 65535, 32768, 28672, 28666] } else { &[65535, 28666] };
     for n in big { let mut v = vec![4, r.u16b(), r.u16b(), *n as u64]; v.extend(r.bytes(*n).iter().map(|b| *b as u64)); cx.emit(&v); }
@@ -136,7 +144,7 @@ pub fn gen_packets(r: &mut Rng, thorough: bool, f: &mut dyn FnMut(u64, &Packet))
             for m in ms { let mut q = rand_packet(r, c, lk + 256 * m); q.data[0] = 0; q.data[1] = c as u8; f(kind, &q); }
         }
         for extra in [256usize, 512, 768, 1024].iter() { let mut q = base.clone(); q.data.extend(r.bytes(*extra)); f(kind, &q); }
-        if kind % 4 == 3 || thorough { let mut q = base.clone(); q.data.extend(r.bytes(65536)); f(kind, &q); }
+        { let mut q = base.clone(); q.data.extend(r.bytes(65536)); f(kind, &q); }       // a length kept in 16 bits
     }
     // 2c. every code x every packet size 0..=600 (random content behind the code), each offered to the decoder of that code
     for c in 0..16u64 { for len in 71..=600usize { let mut q = rand_packet(r, c, len); q.data[0] = 0; q.data[1] = c as u8; f(c, &q); } }
